@@ -32,7 +32,7 @@ impl ItemSourceKind {
                 quote_spanned!(span=> (self.#member))
             }
             ItemSourceKind::Enum => {
-                let ident = field.make_ident("_self");
+                let ident = field.make_ident("__self");
                 quote_spanned!(span=> (*#ident))
             }
         }
@@ -42,10 +42,10 @@ impl ItemSourceKind {
         match self {
             ItemSourceKind::Struct => {
                 let member = field.member();
-                quote_spanned!(span=> (this.#member))
+                quote_spanned!(span=> (__this.#member))
             }
             ItemSourceKind::Enum => {
-                let ident = field.make_ident("_this");
+                let ident = field.make_ident("__this");
                 quote_spanned!(span=> (*#ident))
             }
         }
@@ -55,10 +55,10 @@ impl ItemSourceKind {
         match self {
             ItemSourceKind::Struct => {
                 let member = field.member();
-                quote_spanned!(span=> (other.#member))
+                quote_spanned!(span=> (__other.#member))
             }
             ItemSourceKind::Enum => {
-                let ident = field.make_ident("_other");
+                let ident = field.make_ident("__other");
                 quote_spanned!(span=> (*#ident))
             }
         }
@@ -154,7 +154,7 @@ fn build_compare_op(
                 const _: () = {
                     #[allow(clippy::double_parens)]
                     #[allow(unused_parens)]
-                    fn _f #impl_g (this: &#this_ty) #wheres {
+                    fn __eq_check #impl_g (__this: &#this_ty) #wheres {
                         #body
                     }
                 };
@@ -219,12 +219,12 @@ fn build_partial_eq_body(
             for variant in variants {
                 let use_bounds = variant.hattrs.push_bounds_to(use_bounds, kind, wcb);
                 let body = build_from_fields(&variant.fields, use_bounds, wcb)?;
-                let pat_this = variant.make_pat("_self");
-                let pat_other = variant.make_pat("_other");
+                let pat_this = variant.make_pat("__self");
+                let pat_other = variant.make_pat("__other");
                 arms.push(quote!((#pat_this, #pat_other) => { #body }))
             }
             quote! {
-                match (self, other) {
+                match (self, __other) {
                     #(#arms)*
                     _ => false,
                 }
@@ -232,7 +232,7 @@ fn build_partial_eq_body(
         }
     };
     Ok(quote! {
-        fn eq(&self, other: &Self) -> bool {
+        fn eq(&self, __other: &Self) -> bool {
             #body
         }
     })
@@ -254,8 +254,8 @@ fn build_partial_eq_expr(
     let build_expr_by_eq = |by: &Expr| {
         quote! {
             {
-                fn #fn_ident<__T: ?::core::marker::Sized>(this: &__T, other: &__T, eq: impl ::core::ops::Fn(&__T, &__T) -> bool) -> bool {
-                    eq(this, other)
+                fn #fn_ident<__T: ?::core::marker::Sized>(__this: &__T, __other: &__T, __by: impl ::core::ops::Fn(&__T, &__T) -> bool) -> bool {
+                    __by(__this, __other)
                 }
                 #fn_ident(&#this, &#other, #by)
             }
@@ -281,8 +281,8 @@ fn build_partial_eq_expr(
     if let Some(by) = &cmp.partial_ord.by {
         return Ok(quote! {
             {
-                fn #fn_ident<__T: ?::core::marker::Sized>(this: &__T, other: &__T, partial_cmp: impl ::core::ops::Fn(&__T, &__T) -> ::core::option::Option<::core::cmp::Ordering>) -> bool {
-                    partial_cmp(this, other) == ::core::option::Option::Some(::core::cmp::Ordering::Equal)
+                fn #fn_ident<__T: ?::core::marker::Sized>(__this: &__T, __other: &__T, __by: impl ::core::ops::Fn(&__T, &__T) -> ::core::option::Option<::core::cmp::Ordering>) -> bool {
+                    __by(__this, __other) == ::core::option::Option::Some(::core::cmp::Ordering::Equal)
                 }
                 #fn_ident(&#this, &#other, #by)
             }
@@ -296,8 +296,8 @@ fn build_partial_eq_expr(
     if let Some(by) = &field.hattrs.cmp.ord.by {
         return Ok(quote! {
             {
-                fn #fn_ident<__T: ?::core::marker::Sized>(this: &__T, other: &__T, cmp: impl ::core::ops::Fn(&__T, &__T) -> ::core::cmp::Ordering) -> bool {
-                    cmp(this, other) == ::core::cmp::Ordering::Equal
+                fn #fn_ident<__T: ?::core::marker::Sized>(__this: &__T, __other: &__T, __by: impl ::core::ops::Fn(&__T, &__T) -> ::core::cmp::Ordering) -> bool {
+                    __by(__this, __other) == ::core::cmp::Ordering::Equal
                 }
                 #fn_ident(&#this, &#other, #by)
             }
@@ -369,11 +369,11 @@ fn build_eq_body(
             for variant in variants {
                 let use_bounds = variant.hattrs.push_bounds_to(use_bounds, kind, wcb);
                 let body = build_from_fields(&variant.fields, use_bounds, wcb)?;
-                let pat_this = variant.make_pat_with_self_path("_this", source.ident());
+                let pat_this = variant.make_pat_with_self_path("__this", source.ident());
                 arms.push(quote!(#pat_this => { #body }));
             }
             Ok(quote! {
-                match this {
+                match __this {
                     #(#arms)*
                     _ => { }
                 }
@@ -457,7 +457,7 @@ fn build_partial_ord_body(
             body.extend(quote! {
                 match #expr {
                     ::core::option::Option::Some(::core::cmp::Ordering::Equal) => {}
-                    o => return o,
+                    __o => return __o,
                 }
             });
             use_bounds = field
@@ -479,24 +479,24 @@ fn build_partial_ord_body(
             for variant in variants {
                 let use_bounds = variant.hattrs.push_bounds_to(use_bounds, kind, wcb);
                 let body = build_from_fields(&variant.fields, use_bounds, wcb)?;
-                let pat_this = variant.make_pat("_self");
-                let pat_other = variant.make_pat("_other");
+                let pat_this = variant.make_pat("__self");
+                let pat_other = variant.make_pat("__other");
                 arms.push(quote!((#pat_this, #pat_other) => { #body }));
             }
             let to_index_fn = build_to_index_fn(variants);
             quote! {
-                match (self, other) {
+                match (self, __other) {
                     #(#arms)*
-                    (this, other) => {
+                    (__this, __other) => {
                         #to_index_fn
-                        ::core::cmp::PartialOrd::partial_cmp(&to_index(this), &to_index(other))
+                        ::core::cmp::PartialOrd::partial_cmp(&__to_index(__this), &__to_index(__other))
                     },
                 }
             }
         }
     };
     Ok(quote! {
-        fn partial_cmp(&self, other: &Self) -> ::core::option::Option<::core::cmp::Ordering> {
+        fn partial_cmp(&self, __other: &Self) -> ::core::option::Option<::core::cmp::Ordering> {
             #body
         }
     })
@@ -519,11 +519,11 @@ fn build_partial_ord_expr(
         return Ok(quote! {
             {
                 fn #fn_ident<__T: ?::core::marker::Sized>(
-                    this: &__T,
-                    other: &__T,
-                    partial_cmp: impl ::core::ops::Fn(&__T, &__T) -> ::core::option::Option<::core::cmp::Ordering>)
+                    __this: &__T,
+                    __other: &__T,
+                    __by: impl ::core::ops::Fn(&__T, &__T) -> ::core::option::Option<::core::cmp::Ordering>)
                  -> ::core::option::Option<::core::cmp::Ordering> {
-                    partial_cmp(this, other)
+                    __by(__this, __other)
                 }
                 #fn_ident(&#this, &#other, #by)
             }
@@ -538,11 +538,11 @@ fn build_partial_ord_expr(
         return Ok(quote! {
             {
                 fn #fn_ident<__T: ?::core::marker::Sized>(
-                    this: &__T,
-                    other: &__T,
-                    cmp: impl ::core::ops::Fn(&__T, &__T) -> ::core::cmp::Ordering)
+                    __this: &__T,
+                    __other: &__T,
+                    __by: impl ::core::ops::Fn(&__T, &__T) -> ::core::cmp::Ordering)
                  -> ::core::option::Option<::core::cmp::Ordering> {
-                    ::core::option::Option::Some(cmp(this, other))
+                    ::core::option::Option::Some(__by(__this, __other))
                 }
                 #fn_ident(&#this, &#other, #by)
             }
@@ -595,7 +595,7 @@ fn build_ord_body(
             body.extend(quote! {
                 match #expr {
                     ::core::cmp::Ordering::Equal => {}
-                    o => return o,
+                    __o => return __o,
                 }
             });
             use_bounds = field
@@ -618,24 +618,24 @@ fn build_ord_body(
             for variant in variants {
                 let use_bounds = variant.hattrs.push_bounds_to(use_bounds, kind, wcb);
                 let body = build_from_fields(&variant.fields, use_bounds, wcb)?;
-                let pat_this = variant.make_pat("_self");
-                let pat_other = variant.make_pat("_other");
+                let pat_this = variant.make_pat("__self");
+                let pat_other = variant.make_pat("__other");
                 arms.push(quote!((#pat_this, #pat_other) => { #body }));
             }
             let to_index_fn = build_to_index_fn(variants);
             quote! {
-                match (self, other) {
+                match (self, __other) {
                     #(#arms)*
-                    (this, other) => {
+                    (__this, __other) => {
                         #to_index_fn
-                        ::core::cmp::Ord::cmp(&to_index(this), &to_index(other))
+                        ::core::cmp::Ord::cmp(&__to_index(__this), &__to_index(__other))
                     },
                 }
             }
         }
     };
     Ok(quote! {
-        fn cmp(&self, other: &Self) -> ::core::cmp::Ordering {
+        fn cmp(&self, __other: &Self) -> ::core::cmp::Ordering {
             #body
         }
     })
@@ -658,11 +658,11 @@ fn build_ord_expr(
         return Ok(quote! {
             {
                 fn #fn_ident<__T: ?::core::marker::Sized>(
-                    this: &__T,
-                    other: &__T,
-                    cmp: impl ::core::ops::Fn(&__T, &__T) -> ::core::cmp::Ordering)
+                    __this: &__T,
+                    __other: &__T,
+                    __by: impl ::core::ops::Fn(&__T, &__T) -> ::core::cmp::Ordering)
                  -> ::core::cmp::Ordering {
-                    cmp(this, other)
+                    __by(__this, __other)
                 }
                 #fn_ident(&#this, &#other, #by)
             }
@@ -722,7 +722,7 @@ fn build_hash_body(
             for variant in variants {
                 let use_bounds = variant.hattrs.push_bounds_to(use_bounds, kind, wcb);
                 let body = build_from_fields(&variant.fields, use_bounds, wcb)?;
-                let pat_self = variant.make_pat("_self");
+                let pat_self = variant.make_pat("__self");
                 arms.push(quote!(#pat_self => { #body }));
             }
             quote! {
@@ -734,7 +734,7 @@ fn build_hash_body(
         }
     };
     Ok(quote! {
-        fn hash<__H: ::core::hash::Hasher>(&self, state: &mut __H) {
+        fn hash<__H: ::core::hash::Hasher>(&self, __state: &mut __H) {
             #body
         }
     })
@@ -756,12 +756,12 @@ fn build_hash_expr(
         return Ok(quote! {
             {
                 fn #fn_ident<__T: ?::core::marker::Sized, __H: ::core::hash::Hasher>(
-                    this: &__T,
-                    state: &mut __H,
-                    hash: impl ::core::ops::Fn(&__T, &mut __H)) {
-                    hash(this, state)
+                    __this: &__T,
+                    __state: &mut __H,
+                    __by: impl ::core::ops::Fn(&__T, &mut __H)) {
+                    __by(__this, __state)
                 }
-                #fn_ident(&#this, state, #by)
+                #fn_ident(&#this, __state, #by)
             }
         });
     }
@@ -793,7 +793,7 @@ fn build_hash_expr(
     }
 
     *field_used = true;
-    Ok(quote_spanned!(field.span()=> ::core::hash::Hash::hash(&(#this), state);))
+    Ok(quote_spanned!(field.span()=> ::core::hash::Hash::hash(&(#this), __state);))
 }
 
 pub(super) struct HelperAttributesForCompareOp {
@@ -1111,7 +1111,7 @@ impl Template {
 
     fn build_hash_stmt(&self, this: TokenStream) -> TokenStream {
         let this = self.apply(this);
-        quote_spanned!(this.span()=> ::core::hash::Hash::hash(&(#this), state);)
+        quote_spanned!(this.span()=> ::core::hash::Hash::hash(&(#this), __state);)
     }
 }
 fn build_to_index_fn(variants: &[VariantEntry]) -> TokenStream {
@@ -1121,8 +1121,8 @@ fn build_to_index_fn(variants: &[VariantEntry]) -> TokenStream {
         arms.push(quote!((#pat) => #index,));
     }
     quote! {
-        let to_index = |this: &Self| -> usize {
-            match this {
+        let __to_index = |__this: &Self| -> usize {
+            match __this {
                 #(#arms)*
                 _ => ::core::unreachable!(),
             }
@@ -1132,8 +1132,8 @@ fn build_to_index_fn(variants: &[VariantEntry]) -> TokenStream {
 
 fn build_eq_checker(this: TokenStream) -> TokenStream {
     quote_spanned!(this.span()=>{
-        fn _eq<T: ::core::cmp::Eq + ?::core::marker::Sized>(_this: &T) { }
-        _eq(&(#this))
+        fn __assert_eq<T: ::core::cmp::Eq + ?::core::marker::Sized>(__this: &T) { }
+        __assert_eq(&(#this))
     })
 }
 
